@@ -633,6 +633,43 @@ def check_joint(ctx, rep):
                       f"the same id get the same attribute name, Parametric.__setattr__ then evicts the earlier one, and a likelihood or Jacobian term silently drops out of the joint")
 
 
+def check_inverse_gamma_entropy(ctx, rep):
+    """C14.C (addition) — the inverse gamma of torchtree is parameterised by concentration α and `rate` β, the SCALE of the inverse gamma (it is the rate of the gamma
+    whose reciprocal it is).  If the class provides an analytic entropy (ELBO(entropy=True) adds it), it is H = α + log β + lnΓ(α) − (1 + α)·ψ(α) as a polynomial identity over
+    the atoms α, log β, lnΓ(α), ψ(α).  Without an `entropy` of its own the class raises NotImplementedError: nothing to decide."""
+    from sa.poly import Rat, ToRat
+    m = ctx.prog.modules.get('torchtree.distributions.inverse_gamma')
+    cls = m.classes.get('InverseGamma') if m is not None else None
+    if cls is None:
+        rep.undecided('C14.C', 'InverseGamma::entropy', '', 'torchtree.distributions.inverse_gamma.InverseGamma not found')
+        return
+    ent = next((b for b in cls.body if isinstance(b, ast.FunctionDef) and b.name == 'entropy'), None)
+    if ent is None:
+        rep.ok('C14.C', 'InverseGamma::entropy', where(m, cls), {'entropy': 'not provided (TransformedDistribution raises NotImplementedError)'})
+        return
+    rets = [r.value for r in ast.walk(ent) if isinstance(r, ast.Return) and r.value is not None]
+
+    def atom(e):
+        t = ast.unparse(e).replace(' ', '')
+        table = {'self.concentration': 'a', 'self.rate.log()': 'logb', 'torch.log(self.rate)': 'logb', 'self.concentration.lgamma()': 'lg', 'torch.lgamma(self.concentration)': 'lg',
+                 'self.concentration.digamma()': 'psi', 'torch.digamma(self.concentration)': 'psi'}
+        return Rat.sym(table[t]) if t in table else None
+    key = 'InverseGamma::entropy'
+    if len(rets) != 1:
+        rep.undecided('C14.C', key, where(m, ent), f"{len(rets)} return statements")
+        return
+    try:
+        got = ToRat(atom, pre=atom)(rets[0])
+    except Unsupported as u:
+        rep.undecided('C14.C', key, where(m, ent), f"entropy formula outside the vocabulary: {u}")
+        return
+    a, logb, lg, psi = (Rat.sym(x) for x in ('a', 'logb', 'lg', 'psi'))
+    want = a + logb + lg - (Rat.const(1) + a) * psi
+    rep.check('C14.C', key, got.equals(want), where(m, ent), {'returned': repr(got), 'expected': repr(want)},
+              f"InverseGamma.entropy returns {got!r}; with `rate` the scale β of the inverse gamma the entropy is α + log β + lnΓ(α) − (1 + α)ψ(α) = {want!r}: with the wrong sign "
+              f"of log β the analytic-entropy ELBO is off by 2·log β whenever the posterior scale is not one")
+
+
 def check_container_keeps_every_component(ctx, rep, rule='C14.C', prefix=''):
     """every object handed to a Container is registered, and every registered callable is handed out: no test of identity / id / membership decides whether a component
     takes part (an object listed twice is listed twice on purpose — a concatenation [a, b, a]; two transformed parameters without an id are two Jacobian terms)"""
@@ -1011,6 +1048,7 @@ def run(ctx, rep):
     check_mvn_construction(ctx, rep)
     check_analytic_entropy_terms(ctx, rep)
     check_container_keeps_every_component(ctx, rep)
+    check_inverse_gamma_entropy(ctx, rep)
     # log p and log q are one number per SAMPLE only if every block reports the right sample shape (C10.S: Distribution._sample_shape over the abstract shape cases, matrix-
     # valued blocks included)
     from props import c10 as _c10s
